@@ -10,6 +10,7 @@ generic `DynSizedStructure<H>`):
 """
 from .. import an
 from .. import guard as G
+from ..guard import N, cn
 from .. import layout as L
 from .. import spec as S
 from .. import terms as T
@@ -253,6 +254,7 @@ def run(ctx):
         good = rt is not None and rt[0] == "ref" and rt[1][0] == "fld" and rt[1][2] == 1 and rt[1][1][0] == "deref" and rt[1][1][1][0] == "arg"
         ctx.check(good, "L4", "DynSizedStructure::payload", "DynSizedStructure::payload() exposes exactly the tail field (field 1)",
                   A.site(), how=G.show(rt), why=G.show(rt))
+    palette_extent(ctx, F)
     return ctx.finish(
         "other",
         "For every dynamically sized kind of both crates (and every header instantiation of the generic structure): the "
@@ -264,6 +266,54 @@ def run(ctx):
          "Rust DST semantics: a `&T` with metadata n covers the tail offset plus n elements"],
         "one obligation per (kind, clause L1..L4); non-trivial = needs a dominating-edge fact or a layout equality",
     )
+
+
+_HDR_KINDS = ("InformationRequestHeaderTag", "HeaderTagHeader", "Multiboot2BasicHeader")
+_GENERIC = ("DynSizedStructure<H>", "DynSizedStructure::payload")
+_STRING_KINDS = ("CommandLineTag", "BootLoaderNameTag", "ModuleTag")
+
+
+def only_header_kinds(o):
+    """premise instances of C05 that concern the header crate (plus the generic structure)"""
+    return any(k in o.key for k in _HDR_KINDS + _GENERIC)
+
+
+def only_mbi_kinds(o):
+    return not any(k in o.key for k in _HDR_KINDS)
+
+
+def only_string_kinds(o):
+    return any(k in o.key for k in _STRING_KINDS)
+
+
+def palette_extent(ctx, F):
+    """L5: the one variable part that is not a DST tail - the indexed-colour palette carved out of FramebufferTag's buffer:
+    it starts where the reader stands (after the u16 count) and n * 3 bytes are bounded by the bytes that remain of that
+    same buffer (whose own extent is L2 of FramebufferTag), so it cannot reach padding or the next tag."""
+    from . import memsafe
+    from .. import unsafe as U
+    from .. import an
+    insts = [i for i in F.insts.values() if cn(i["key"]).endswith("FramebufferTag::buffer_type") and not i.get("closure")]
+    if len(insts) != 1:
+        ctx.fail("ANCHOR", "FramebufferTag::buffer_type", "FramebufferTag::buffer_type has MIR", "", "%d instances" % len(insts))
+        return
+    inst = insts[0]
+    A = an.of(F, inst)
+    sites = [s for s in U.sites_of(F, inst) if s.kind == "unsafecall" and s.what == "core::slice::raw::from_raw_parts"]
+    ctx.check(len(sites) == 1, "L5", "FramebufferTag:palette:site", "the palette slice is created at exactly one site of buffer_type", A.site(),
+              how="1 from_raw_parts site", why="%d from_raw_parts sites" % len(sites))
+    for s in sites:
+        ok, how = memsafe.check_palette(F, s, A)
+        src_ok = False
+        if ok:
+            # the bounding slice must be the reader's remaining bytes of self.buffer, not some other slice
+            v = G.strip(A.tb.call_value(A.body.term(s.bb), s.bb))
+            src = G.strip(v[1])[1]
+            txt = G.show(N(src))
+            src_ok = "remaining" in txt or ("index" in txt and "buffer" in txt)
+            how += "; source slice = %s" % txt[:100]
+        ctx.check(ok and src_ok, "L5", "FramebufferTag:palette", "palette = n colours starting at the reader position with n * 3 <= bytes remaining in the tag's buffer "
+                  "(never past the declared size)", s.span, how=how, why=how)
 
 
 def header_guarantee_wrapsafe(ctx, F, hty):
